@@ -614,7 +614,7 @@ func C04(c *Ctx) {
 		for _, src := range sourcesWithFacts(bsArg, stepFns) {
 			succ := false
 			for _, f := range flow.Expand(src.facts) {
-				if b, isB := f.Cond.(*ssa.BinOp); isB && b.X == aerr && ssau.IsNilConst(b.Y) {
+				if b, isB := f.Cond.(*ssa.BinOp); isB && sameValue(b.X, aerr, actionCall.Parent()) && ssau.IsNilConst(b.Y) {
 					if (b.Op == token.EQL && f.True) || (b.Op == token.NEQ && !f.True) {
 						succ = true
 					}
@@ -622,7 +622,7 @@ func C04(c *Ctx) {
 			}
 			if succ {
 				base, is := isFieldLoad(src.leaf, "core", "Execution", "Bs")
-				if is && base == exe {
+				if is && sameValue(base, exe, actionCall.Parent()) {
 					okRepl = true
 				} else {
 					why = append(why, "on the action's success edge the bindings are "+src.leaf.Name()+", not the execution's Bs")
@@ -675,7 +675,7 @@ func C04(c *Ctx) {
 					return about(x.Common().Args[0], depth+1)
 				}
 			}
-			if v == aerr || v == exe {
+			if sameValue(v, aerr, actionCall.Parent()) || sameValue(v, exe, actionCall.Parent()) {
 				out["exec"] = true
 				return out
 			}
@@ -1012,6 +1012,8 @@ func C04(c *Ctx) {
 			matchBss = ex
 		}
 	}
+	// the guard's execution, also as the result of a helper that runs the guard and hands the execution on
+	guardExes := handedOnResults(guardExe, closure)
 	fromMatcher := func(v ssa.Value) bool {
 		for _, d := range deepDefs(v, closure) {
 			if d == matchBss {
@@ -1029,7 +1031,7 @@ func C04(c *Ctx) {
 		if !nn {
 			return false
 		}
-		if b2, is2 := isFieldLoad(bo.X, "core", "Execution", "Bs"); is2 && b2 == guardExe {
+		if b2, is2 := isFieldLoad(bo.X, "core", "Execution", "Bs"); is2 && guardExes[b2] {
 			return true
 		}
 		return bo.X == of
@@ -1053,7 +1055,7 @@ func C04(c *Ctx) {
 					return true
 				}
 			}
-			if base, is := isFieldLoad(w.leaf, "core", "Execution", "Bs"); is && base == guardExe && isNonNilFact(f, w.leaf) {
+			if base, is := isFieldLoad(w.leaf, "core", "Execution", "Bs"); is && guardExes[base] && isNonNilFact(f, w.leaf) {
 				return true
 			}
 		}
@@ -1078,7 +1080,7 @@ func C04(c *Ctx) {
 		if ssau.IsNilConst(d) {
 			continue // rejected: filtered by the nil test below
 		}
-		if base, is := isFieldLoad(d, "core", "Execution", "Bs"); is && base == guardExe {
+		if base, is := isFieldLoad(d, "core", "Execution", "Bs"); is && guardExes[base] {
 			// must be under Bs != nil: where it is read, where it is chosen (phi edge), where it is returned from a
 			// helper, or where the value it became is tested before the state is built
 			if !wayNonNil(w) {
@@ -1118,13 +1120,14 @@ func C04(c *Ctx) {
 				guardErr = ex
 			}
 		}
+		guardErrs := handedOnResults(guardErr, closure)
 		guardOnly := func(v ssa.Value) bool {
 			n := 0
 			for _, d := range deepDefs(v, closure) {
 				if ssau.IsNilConst(d) {
 					continue
 				}
-				if base, is := isFieldLoad(d, "core", "Execution", "Bs"); is && base == guardExe {
+				if base, is := isFieldLoad(d, "core", "Execution", "Bs"); is && guardExes[base] {
 					n++
 					continue
 				}
@@ -1134,7 +1137,7 @@ func C04(c *Ctx) {
 		}
 		isGuardErr := func(v ssa.Value) bool {
 			for _, d := range deepDefs(v, closure) {
-				if d == guardErr && guardErr != nil {
+				if guardErr != nil && guardErrs[d] {
 					return true
 				}
 			}
@@ -1653,4 +1656,70 @@ func c04ObjectResult(c *Ctx) {
 	if n == 0 {
 		c.R.Break("C04-R8: no conversion of an object result to bindings found in the interpreter")
 	}
+}
+
+// handedOnResults: the values that are v (a result of a call made in a helper) in the callers of the helper: when
+// every return of the helper hands v on as its result #i, result #i of every place where the helper runs (its static
+// calls and the calls of its method value, which must all be known) is v; and so on, up a few levels.
+func handedOnResults(v ssa.Value, scope []*ssa.Function) map[ssa.Value]bool {
+	out := map[ssa.Value]bool{}
+	if v == nil {
+		return out
+	}
+	out[v] = true
+	work := []ssa.Value{v}
+	for depth := 0; len(work) > 0 && depth < 4; depth++ {
+		var next []ssa.Value
+		for _, x := range work {
+			in, ok := x.(ssa.Instruction)
+			if !ok || in.Parent() == nil {
+				continue
+			}
+			f := in.Parent()
+			nres := f.Signature.Results().Len()
+			for i := 0; i < nres; i++ {
+				all, n := true, 0
+				for _, b := range f.Blocks {
+					ret, isRet := b.Instrs[len(b.Instrs)-1].(*ssa.Return)
+					if !isRet || i >= len(ret.Results) {
+						continue
+					}
+					n++
+					for _, d := range phiDefs(ret.Results[i], nil, map[ssa.Value]bool{}) {
+						if d != x {
+							all = false
+						}
+					}
+				}
+				if !all || n == 0 {
+					continue
+				}
+				sites, complete := valueCallSites(f, scope)
+				if !complete {
+					continue
+				}
+				for _, s := range sites {
+					sv := s.Value()
+					if sv == nil {
+						continue
+					}
+					if nres == 1 {
+						if !out[sv] {
+							out[sv] = true
+							next = append(next, sv)
+						}
+						continue
+					}
+					for _, r := range ssau.Referrers(sv) {
+						if ex, isEx := r.(*ssa.Extract); isEx && ex.Index == i && !out[ex] {
+							out[ex] = true
+							next = append(next, ex)
+						}
+					}
+				}
+			}
+		}
+		work = next
+	}
+	return out
 }
